@@ -457,9 +457,28 @@ def step_eof_during_search(tier, seed, ctx):
                ["uci", "position fen r1bqkbnr/pppp1ppp/2n5/4p3/4P3/5N2/PPPP1PPP/RNBQKB1R w KQkq - 2 3", "go depth 5", "go depth 2", "isready"]]
     if tier != "quick":
         scripts += [["position startpos", "go movetime 1200", "isready"], ["position startpos", "go depth 7", "quit", "isready"]]
+    def run_delayed_close(lines, delay_s):
+        """write the script, keep stdin open for `delay_s` seconds (the search has started by then), close it, collect the output"""
+        p = subprocess.Popen([exe], stdin=subprocess.PIPE, stdout=subprocess.PIPE, stderr=subprocess.DEVNULL)
+        try:
+            p.stdin.write(encode_script(lines))
+            p.stdin.flush()
+            time.sleep(delay_s)
+            p.stdin.close()
+            try:
+                o = p.stdout.read()
+                p.wait(timeout=120)
+                return canon(o.decode("utf-8", errors="replace")), p.returncode
+            except subprocess.TimeoutExpired:
+                p.kill()
+                return [], "timeout"
+        finally:
+            if p.poll() is None:
+                p.kill()
+
     for lines in scripts:
-        for enc in ("lf", "nofinal"):
-            out, rc = run_engine(exe, lines, timeout=120, encoding=enc)
+        for enc in ("lf", "nofinal", "delayed-close"):
+            out, rc = run_delayed_close(lines, 0.15) if enc == "delayed-close" else run_engine(exe, lines, timeout=120, encoding=enc)
             res["evaluations"] += 1
             res["spec_compared"] += 1
             upto = next((i for i, l in enumerate(lines) if l.split()[:1] == ["quit"]), len(lines))
@@ -475,7 +494,7 @@ def step_eof_during_search(tier, seed, ctx):
             elif len(res["samples"]) < 2:
                 res["samples"].append({"script": lines, "stdout_tail": out[-3:], "exit": rc})
     res["distinct_nontrivial"] = len(scripts)
-    res["distribution"] = {"blackbox_eof_during_search": {"scripts": len(scripts), "encodings": ["lf", "nofinal"]}}
+    res["distribution"] = {"blackbox_eof_during_search": {"scripts": len(scripts), "encodings": ["lf", "nofinal", "stdin closed 150 ms after the script was written"]}}
     return res
 
 
